@@ -60,7 +60,7 @@ func c05SharedScenarios(c *gen.Ctx) []any {
 	r := c.R
 	var ins []any
 	add := func(s cc.VerifC05SharedSpec) {
-		s.TimeoutS = 12
+		s.TimeoutS = 8
 		ins = append(ins, s)
 		c.E.Count("shared:" + s.Fail + ":" + s.Then)
 	}
